@@ -1128,7 +1128,9 @@ def run_test(ctx: FunctionContext) -> TestResult:
             )
             try:
                 solver_output = solve_low_level(path_ctx)
-            except ShutdownError:
+            except Exception as e:
+                if not is_benign_solving_error(e):
+                    raise
                 # early exit was triggered by a counterexample found in the meantime
                 if args.debug:
                     print("aborting path exploration, executor has been shutdown")
